@@ -22,7 +22,15 @@ type Obligation struct {
 	// MustFail marks reachability probes: the query must be SAT.
 	MustFail bool
 	Note     string
+	Only     []string // property ids this obligation is reported for (empty = every property of the contract)
 	split    []*Obligation
+}
+
+func (o *Obligation) SetOnly(only []string) {
+	o.Only = only
+	for _, p := range o.split {
+		p.Only = only
+	}
 }
 
 // SetNote annotates an obligation (and its split parts).
